@@ -27,7 +27,7 @@ RULE = ("cases: (environment sizes, ratio composition, seed, container form).  d
         ' Also: explicit seeds 0 and 42 with pairwise distinct assignments, folds of earlier calls re-checked after later calls, the call repeated after the caller overwrote earlier folds.')
 ASSUMPTIONS = ["ratio vectors are exact-sum-1 by construction (k_i/m); the float sum may differ from 1 by rounding"]
 EXHAUSTIVE = {"quick": True, "thorough": True}
-SOFT_LIMIT = {"quick": 240, "thorough": 1500}
+SOFT_LIMIT = {"quick": 1200, "thorough": 5400}      # generous wall-clock watchdogs (a loaded machine must not cut a workload short); normal run times are in the evidence
 REQUIRED_FUNCS = ["sempler/utils.py:split_data"]
 REQUIRED_COUNTERS = {"quick": {"accepted": 20000, "float-sum-not-1": 300, "rejected-as-expected": 200, "tie-sizes": 300, "determinism-checked": 5000,
                                "shuffle-checked": 1000, "rows-tracked": 500000, "uniformity:calls": 20000, "uniformity:cells-judged": 150},
